@@ -25,11 +25,10 @@ HERE = os.path.dirname(os.path.abspath(__file__))
 VERIF = os.path.dirname(HERE)
 
 
-def _prepare(kind, spec):
+def _prepare(kind, spec, base):
     """-> temp root containing magpylib/ with the variant applied, or None if not applicable"""
-    import common
     root = tempfile.mkdtemp(prefix="verif_selftest_")
-    shutil.copytree(os.path.join(common.REPO, "magpylib"), os.path.join(root, "magpylib"),
+    shutil.copytree(os.path.join(base, "magpylib"), os.path.join(root, "magpylib"),
                     ignore=shutil.ignore_patterns("__pycache__", "*.pyc"))
     if kind == "patch":
         r = subprocess.run(["git", "apply", "--whitespace=nowarn", spec], cwd=root, capture_output=True, text=True)
@@ -63,11 +62,11 @@ def _prepare(kind, spec):
 
 
 def _run_variant(args):
-    pid, name, kind, spec, expect = args
+    pid, name, kind, spec, expect, base = args
     sys.path.insert(0, HERE)
     sys.dont_write_bytecode = True
     import common
-    root = _prepare(kind, spec)
+    root = _prepare(kind, spec, base)
     if root is None:
         return (name, expect, "skipped", "anchor text / patch no longer applies")
     if root == "SYNTAX":
@@ -90,25 +89,30 @@ def _run_variant(args):
             return (name, expect, "error", status[:300])
         return (name, expect, "fired" if new else "silent", "; ".join(f"[{f.rule}] {f.func}: {f.construct[:60]}" for f in new[:3]))
     finally:
+        common.REPO = base          # worker processes are reused
         shutil.rmtree(root, ignore_errors=True)
 
 
 def run_for(pid, mod, seed=0):
     import mutants
+    import common
+    base = common.REPO
     items = []
     for m in mutants.MUTANTS:
         if pid in m["pids"]:
-            items.append((pid, m["name"], "edit", {"file": m["file"], "old": m["old"], "new": m["new"]}, m.get("expect", "fire")))
+            items.append((pid, m["name"], "edit", {"file": m["file"], "old": m["old"], "new": m["new"]}, m.get("expect", "fire"), base))
     det = mutants.SEED_DETECTION
     for d in sorted(glob.glob(os.path.join(VERIF, "seeded", "*"))):
         sid = os.path.basename(d)
         if pid in det.get(sid, ()):
-            items.append((pid, f"seed:{sid}", "patch", os.path.join(d, "patch.diff"), "fire"))
+            items.append((pid, f"seed:{sid}", "patch", os.path.join(d, "patch.diff"), "fire", base))
     out = {"variants": len(items), "fired": 0, "silent_ok": 0, "skipped": [], "failed": [], "details": []}
     if not items:
         return out
     with cf.ProcessPoolExecutor(max_workers=min(16, len(items))) as ex:
         results = list(ex.map(_run_variant, items))
+    if seed:
+        pass    # all variants are always run; VERIF_SEED has no choice to make here
     for name, expect, got, detail in results:
         out["details"].append({"variant": name, "expect": expect, "got": got, "detail": detail})
         if got == "skipped":
